@@ -393,3 +393,41 @@ fn c06_config_new_wan() {
     kani::assert(c.probe_rtt < c.probe_period, "c06: probe_rtt < probe_period");
     kani::cover!(n == 1, "single node");
 }
+
+/// bincode, concrete buffer limits (cheap instances of the short-buffer clause)
+fn bc_member_limit(limit: usize) {
+    let m = any_member();
+    let mut c = bc();
+    let buf: Vec<u8> = Vec::with_capacity(8);
+    let mut lim = buf.limit(limit);
+    let r = c.encode_member(&m, &mut lim);
+    let out = lim.into_inner();
+    kani::assert(out.len() <= limit, "c20: never writes past the space given");
+    let need = if m.incarnation() < 251 { 4 } else { 6 };
+    if limit < need {
+        kani::assert(r.is_err(), "c20: encoding into a buffer with insufficient space returns an error");
+    } else {
+        kani::assert(r.is_ok() && out.len() == need, "c20: encoding succeeds when the space suffices");
+    }
+    kani::cover!(m.incarnation() >= 251, "three-byte varint");
+    core::mem::forget(r);
+    core::mem::forget(out);
+}
+#[kani::proof]
+#[kani::unwind(8)]
+#[kani::stub(alloc::fmt::format, no_format)]
+fn c20_bc_member_limit_0() {
+    bc_member_limit(0)
+}
+#[kani::proof]
+#[kani::unwind(8)]
+#[kani::stub(alloc::fmt::format, no_format)]
+fn c20_bc_member_limit_3() {
+    bc_member_limit(3)
+}
+#[kani::proof]
+#[kani::unwind(8)]
+#[kani::stub(alloc::fmt::format, no_format)]
+fn c20_bc_member_limit_5() {
+    bc_member_limit(5)
+}
